@@ -1389,7 +1389,7 @@ class ServiceClass:
                 # Failure: Cannot Understand - callback returned
                 #   a pydicom.dataset.Dataset without a Status element
                 rsp.Status = 0xC001
-        elif isinstance(status, int):
+        elif isinstance(status, int) and 0 <= status <= 0xFFFF:
             rsp.Status = status
         else:
             LOGGER.error("Invalid status returned by callback")
@@ -1498,7 +1498,7 @@ class VerificationServiceClass(ServiceClass):
                             f"bound to 'evt.EVT_C_ECHO' contained an "
                             f"unsupported Element '{elem.keyword}'"
                         )
-            elif isinstance(status, int):
+            elif isinstance(status, int) and 0 <= status <= 0xFFFF:
                 rsp.Status = status
             else:
                 raise TypeError(
